@@ -95,7 +95,7 @@ func c15(c *hx.Ctx) int {
 	if c.Quick() {
 		c.Budget = 150 * second
 	} else {
-		c.Budget = 1500 * second
+		c.Budget = 600 * second
 	}
 	if !verifrt.RaceEnabled {
 		fmt.Println("HARNESS-ERROR C15 must be built with -race")
@@ -146,7 +146,7 @@ func c15worker(c *hx.Ctx) int {
 	}
 	bound := 3
 	if !c.Quick() {
-		bound = 1000 // every interleaving of the two-thread scenarios
+		bound = 6 // (all interleavings of the two-thread scenarios have at most a handful more preemptions)
 	}
 	rep.Inc("bound", int64(bound))
 	rep.Inc("workers", 1)
